@@ -278,6 +278,9 @@ var registry = map[string]maker{
 		b.SetLength(p.i("length", 64))
 		return b
 	},
+	"overlapcopy": func(d *driver.Driver, a arch.Type, p params) benchmarks.Benchmark {
+		return &overlapcopy{driver: d, context: d.Init(), Length: p.i("length", 4096), Taps: p.i("taps", 32), Chunks: p.i("chunks", 8)}
+	},
 	"pagerank": func(d *driver.Driver, a arch.Type, p params) benchmarks.Benchmark {
 		b := pagerank.NewBenchmark(d)
 		b.Arch = a
